@@ -8,6 +8,7 @@ import (
 
 	"github.com/massnetorg/mass-core/poc/pocutil"
 	"github.com/massnetorg/mass-core/pocec"
+	"github.com/shirou/gopsutil/mem"
 )
 
 // ---- file model: a 128-byte header image and the proof-data region (offset 4096..) as byte arrays -------------
@@ -46,6 +47,12 @@ func vsFileWriteAt(f *os.File, b []byte, off int64) (int, error) {
 }
 
 func vsFileReadAt(f *os.File, b []byte, off int64) (int, error) {
+	if vsSparse {
+		vsSparseOff, vsSparseLen = off, len(b)
+		vsSparseData = vsNondetBytes(len(b), "entry")
+		copy(b, vsSparseData)
+		return len(b), nil
+	}
 	vf := vsFiles[f]
 	for i := range b {
 		o := off + int64(i)
@@ -72,6 +79,20 @@ var vsPTable []pocutil.PoCValue
 
 func vsP(x pocutil.PoCValue, bl int, pkh pocutil.Hash) pocutil.PoCValue { return vsPTable[x] }
 
+func vsPBswitch(x []byte, bl int, pkh pocutil.Hash) pocutil.PoCValue {
+	if vsSparse {
+		return vsPB(x, bl, pkh)
+	}
+	return vsPTable[x[0]]
+}
+
+func vsFBswitch(x, xp []byte, bl int, pkh pocutil.Hash) pocutil.PoCValue {
+	if vsSparse {
+		return vsFBsym(x, xp, bl, pkh)
+	}
+	return vsFB(x, xp, bl, pkh)
+}
+
 func vsMakeTable(volume int, nsym int) {
 	vsPTable = make([]pocutil.PoCValue, volume)
 	s := uint32(12345)
@@ -91,12 +112,59 @@ func vsMakeTable(volume int, nsym int) {
 // lower limit is 256 MiB, i.e. tens of millions of records; the arithmetic of makeAvailableMemory itself is checked
 // separately at full width in VsH_MemContract), or the call fails.
 
+var vsMemPassThrough bool
+var vsAvailable uint64
+
+// contract of gopsutil's mem.VirtualMemory: an arbitrary amount of available memory
+func vsVirtualMemory() (*mem.VirtualMemoryStat, error) {
+	return &mem.VirtualMemoryStat{Available: vsAvailable}, nil
+}
+
+// VsH_MemContract: the real makeAvailableMemory against the contract the plot harnesses assume for it: on success
+// the cache has exactly the granted size and is freshly zeroed (whatever it held before), the granted size is the
+// requested one when memory suffices; with less than the minimum available and a request above it, the call fails.
+func VsH_MemContract() {
+	vsMemPassThrough = true
+	pre := vsFork(3, "precache") // previous window's cache: none, same size as the new request, another size
+	req := uint64(1 + vsFork(6, "required"))
+	cache := NewMemCache(0)
+	if pre == 1 {
+		cache.Update(req)
+	} else if pre == 2 {
+		cache.Update(req + 2)
+	}
+	for i := range cache.data {
+		cache.data[i] = vsNondetU8("dirty") // records of the previous window
+	}
+	vsAvailable = vsNondetU64("available")
+	hm := &HashMapA{}
+	err := hm.makeAvailableMemory(cache, req)
+	if vsAvailable >= req {
+		vsAssert(err == nil, "enough-memory-never-fails")
+	}
+	if err == nil {
+		vsAssert(uint64(cache.Len()) == req && uint64(len(cache.data)) == req, "granted-size-is-the-request-when-memory-suffices")
+		for i := range cache.data {
+			vsAssert(cache.data[i] == 0, "window-cache-starts-zeroed")
+		}
+		vsReach("granted")
+	} else {
+		vsAssert(vsAvailable < req && vsAvailable < minPrePlotMem, "failure-only-below-minimum-memory")
+		vsReach("refused")
+	}
+	vsMemPassThrough = false
+}
+
 var vsFailAt int // window at which the memory request fails (0: never)
+var vsSizes = []int{33, 24, 17} // cache sizes (in records) the environment may grant instead of the requested size
 var vsWindows int
 var vsLastRequired uint64
 var vsRecordSize int
 
 func vsMakeAvailableMemory(cache *MemCache, requiredMem, maxMem, minMem uint64) error {
+	if vsMemPassThrough {
+		return makeAvailableMemory(cache, requiredMem, maxMem, minMem) // the real function (contract harness)
+	}
 	vsWindows++
 	if vsWindows > 1 {
 		// progress of the window loop: the amount still to be produced strictly decreases
@@ -108,6 +176,10 @@ func vsMakeAvailableMemory(cache *MemCache, requiredMem, maxMem, minMem uint64) 
 		return ErrMemoryNotEnough
 	}
 	size := requiredMem
+	if vsResumeFull {
+		cache.Update(size)
+		return nil
+	}
 	if vsBound("symwindows") == 1 {
 		if vsNondetBool("mem.short") {
 			size = vsNondetU64("mem.size")
@@ -115,13 +187,8 @@ func vsMakeAvailableMemory(cache *MemCache, requiredMem, maxMem, minMem uint64) 
 		}
 	} else {
 		// case split over a small set of cache sizes (in records): everything requested, or one of the listed sizes
-		switch vsFork(4, "mem.records") {
-		case 1:
-			size = 33
-		case 2:
-			size = 24
-		case 3:
-			size = 17
+		if k := vsFork(len(vsSizes)+1, "mem.records"); k > 0 {
+			size = uint64(vsSizes[k-1])
 		}
 		size *= uint64(vsRecordSize)
 		if size > requiredMem {
@@ -150,6 +217,8 @@ func VsH_PrePlotResume() {
 	vsRecordSize = pocutil.RecordSize(bl)
 	vsMakeTable(volume, vsBound("symhash"))
 	vsWindows, vsLastRequired = 0, 0
+	vsSizes = []int{33, 24, 17}
+	vsResumeFull = false
 	vsFailAt = vsFork(4, "mem.failAt")
 	f := vsNewFile(volume * vsRecordSize)
 	hm := HashMap{data: f, bl: bl, volume: pocutil.PoCValue(volume), offset: LenMetaInfo, step: 1, recordSize: vsRecordSize, pk: &pocec.PublicKey{}}
